@@ -3,6 +3,7 @@ package pc
 import (
 	"fmt"
 	"go/ast"
+	"go/token"
 	"go/types"
 	"os"
 	"sort"
@@ -698,10 +699,19 @@ func ruleC04Escape(p *Program, r *Run, g *grammar) {
 			}
 		}
 		// or the value goes through a strings.Replacer with a constant table
+		var chunkEsc map[string]string
 		replacer := ""
 		for _, o := range g.occs {
 			if o.Ev.Func == fd && o.Ev.Kind == "RAW" && strings.HasPrefix(o.Origin, "replacer:") {
 				replacer = strings.TrimPrefix(o.Origin, "replacer:")
+			}
+		}
+		// or it is copied in runs between the special characters (chunked copy)
+		if ci := p.chunkIdiomOf(fd); ci != nil {
+			bKey, replacer = "", "-"
+			chunkEsc = map[string]string{}
+			for i := 0; i < len(ci.special); i++ {
+				chunkEsc[ci.special[i:i+1]] = ci.escape(ci.special[i])
 			}
 		}
 		if bKey == "" && replacer == "" {
@@ -709,7 +719,10 @@ func ruleC04Escape(p *Program, r *Run, g *grammar) {
 			continue
 		}
 		esc := map[string]string{}
-		if replacer != "" {
+		for k, v := range chunkEsc {
+			esc[k] = v
+		}
+		if replacer != "" && replacer != "-" {
 			parts := strings.Split(replacer, "\x00")
 			for i := 0; i+1 < len(parts); i += 2 {
 				esc[parts[i]] = parts[i+1]
@@ -1037,4 +1050,220 @@ func (p *Program) assembledSQL(x ast.Expr, depth int) bool {
 		return p.allDefsAre(v, func(d ast.Expr) bool { return p.assembledSQL(d, depth+1) })
 	}
 	return false
+}
+
+// ---- the chunked-copy idiom of a sanitizer.
+//
+//	for {
+//		i := strings.IndexAny(s, special)      // or IndexByte / IndexRune with a constant
+//		if i < 0 { break }
+//		sb.WriteString(s[:i])                   // a run free of the special characters
+//		sb.WriteByte(s[i]); sb.WriteByte(s[i])  // what stands for the special character found
+//		s = s[i+1:]
+//	}
+//	sb.WriteString(s)                         // the rest, free of them as well
+//
+// The body is straight-line; s[i] stands for "the special character found", constants for themselves. From this
+// shape the escape of every character of `special` is read off; every other byte is copied by the run writes.
+type chunkIdiom struct {
+	loop    *ast.ForStmt
+	param   types.Object
+	special string
+	escape  func(c byte) string // what is written for the special byte c
+	chunk   *ast.CallExpr       // the write of s[:i]
+	rest    *ast.CallExpr       // the write of s after the loop
+	writes  map[*ast.CallExpr]bool
+}
+
+func (p *Program) chunkIdiomOf(fd *ast.FuncDecl) *chunkIdiom {
+	info := p.PQL.TypesInfo
+	var found *chunkIdiom
+	for idx, st := range fd.Body.List {
+		fs, ok := st.(*ast.ForStmt)
+		if !ok || fs.Init != nil || fs.Cond != nil || fs.Post != nil || len(fs.Body.List) < 4 {
+			continue
+		}
+		body := fs.Body.List
+		// i := strings.IndexAny(s, special)
+		as, ok := body[0].(*ast.AssignStmt)
+		if !ok || as.Tok != token.DEFINE || len(as.Lhs) != 1 || len(as.Rhs) != 1 {
+			continue
+		}
+		call, ok := ast.Unparen(as.Rhs[0]).(*ast.CallExpr)
+		if !ok || len(call.Args) != 2 {
+			continue
+		}
+		f := Callee(info, call)
+		if f == nil || f.Pkg() == nil || f.Pkg().Path() != "strings" {
+			continue
+		}
+		special := ""
+		switch f.Name() {
+		case "IndexAny":
+			s, isS := constString(info, call.Args[1])
+			if !isS {
+				continue
+			}
+			special = s
+		case "IndexByte", "IndexRune":
+			v, isC := constInt(info, call.Args[1])
+			if !isC || v < 0 || v > 127 {
+				continue
+			}
+			special = string(rune(v))
+		default:
+			continue
+		}
+		for _, r := range special {
+			if r > 127 {
+				special = "" // bytewise reasoning only
+			}
+		}
+		if special == "" {
+			continue
+		}
+		iObj := objOf(info, as.Lhs[0])
+		sObj := objOf(info, call.Args[0])
+		if iObj == nil || sObj == nil {
+			continue
+		}
+		if b, isB := sObj.Type().Underlying().(*types.Basic); !isB || b.Info()&types.IsString == 0 {
+			continue
+		}
+		// if i < 0 { break }   (or i == -1)
+		ifs, ok := body[1].(*ast.IfStmt)
+		if !ok || ifs.Init != nil || ifs.Else != nil || len(ifs.Body.List) != 1 {
+			continue
+		}
+		if br, isBr := ifs.Body.List[0].(*ast.BranchStmt); !isBr || br.Tok != token.BREAK || br.Label != nil {
+			continue
+		}
+		cond, ok := ast.Unparen(ifs.Cond).(*ast.BinaryExpr)
+		if !ok || objOf(info, cond.X) != iObj {
+			continue
+		}
+		cv, isC := constInt(info, cond.Y)
+		if !(isC && (cond.Op == token.LSS && cv == 0 || cond.Op == token.EQL && cv == -1 || cond.Op == token.LEQ && cv == -1)) {
+			continue
+		}
+		// the writes and the final reslice
+		isSI := func(x ast.Expr) bool { // s[i]
+			ix, ok := ast.Unparen(x).(*ast.IndexExpr)
+			return ok && objOf(info, ix.X) == sObj && objOf(info, ix.Index) == iObj
+		}
+		var pieces []string // "\x00" stands for the special byte found
+		var chunk *ast.CallExpr
+		writes := map[*ast.CallExpr]bool{}
+		okShape := true
+		for k, s2 := range body[2 : len(body)-1] {
+			es, ok := s2.(*ast.ExprStmt)
+			if !ok {
+				okShape = false
+				break
+			}
+			wc, ok := es.X.(*ast.CallExpr)
+			if !ok || len(wc.Args) != 1 {
+				okShape = false
+				break
+			}
+			sel, ok := ast.Unparen(wc.Fun).(*ast.SelectorExpr)
+			if !ok || !isBuilder(info, sel.X) {
+				okShape = false
+				break
+			}
+			arg := ast.Unparen(wc.Args[0])
+			switch {
+			case k == 0:
+				// sb.WriteString(s[:i])
+				sl, isSl := arg.(*ast.SliceExpr)
+				if !isSl || sel.Sel.Name != "WriteString" || sl.Low != nil || sl.Max != nil || objOf(info, sl.X) != sObj || objOf(info, sl.High) != iObj {
+					okShape = false
+				}
+				chunk = wc
+			case sel.Sel.Name == "WriteByte" && isSI(arg):
+				pieces = append(pieces, "\x00")
+			case sel.Sel.Name == "WriteByte" || sel.Sel.Name == "WriteRune":
+				v, isC := constInt(info, arg)
+				if !isC || v < 0 || v > 127 {
+					okShape = false
+				}
+				pieces = append(pieces, string(rune(v)))
+			case sel.Sel.Name == "WriteString":
+				cs, isS := constString(info, arg)
+				if !isS {
+					okShape = false
+				}
+				pieces = append(pieces, cs)
+			default:
+				okShape = false
+			}
+			writes[wc] = true
+			if !okShape {
+				break
+			}
+		}
+		if !okShape || chunk == nil || len(pieces) == 0 {
+			continue
+		}
+		// s = s[i+1:]
+		rs, ok := body[len(body)-1].(*ast.AssignStmt)
+		if !ok || rs.Tok != token.ASSIGN || len(rs.Lhs) != 1 || len(rs.Rhs) != 1 || objOf(info, rs.Lhs[0]) != sObj {
+			continue
+		}
+		sl, ok := ast.Unparen(rs.Rhs[0]).(*ast.SliceExpr)
+		if !ok || sl.High != nil || sl.Max != nil || objOf(info, sl.X) != sObj {
+			continue
+		}
+		lo, ok := ast.Unparen(sl.Low).(*ast.BinaryExpr)
+		if !ok || lo.Op != token.ADD || objOf(info, lo.X) != iObj {
+			continue
+		}
+		if one, isC := constInt(info, lo.Y); !isC || one != 1 {
+			continue
+		}
+		// the statement after the loop writes the rest; s and i are not assigned anywhere else
+		if idx+1 >= len(fd.Body.List) {
+			continue
+		}
+		var rest *ast.CallExpr
+		if es, ok := fd.Body.List[idx+1].(*ast.ExprStmt); ok {
+			if wc, ok := es.X.(*ast.CallExpr); ok && len(wc.Args) == 1 && objOf(info, wc.Args[0]) == sObj {
+				if sel, ok := ast.Unparen(wc.Fun).(*ast.SelectorExpr); ok && sel.Sel.Name == "WriteString" && isBuilder(info, sel.X) {
+					rest = wc
+				}
+			}
+		}
+		if rest == nil {
+			continue
+		}
+		assigns := 0
+		ast.Inspect(fd.Body, func(n ast.Node) bool {
+			if a, ok := n.(*ast.AssignStmt); ok {
+				for _, l := range a.Lhs {
+					if o := objOf(info, l); o == sObj || o == iObj {
+						assigns++
+					}
+				}
+			}
+			return true
+		})
+		if assigns != 2 {
+			continue
+		}
+		writes[rest] = true
+		ps := append([]string(nil), pieces...)
+		found = &chunkIdiom{loop: fs, param: sObj, special: special, chunk: chunk, rest: rest, writes: writes,
+			escape: func(c byte) string {
+				out := ""
+				for _, pc := range ps {
+					if pc == "\x00" {
+						out += string(rune(c))
+					} else {
+						out += pc
+					}
+				}
+				return out
+			}}
+	}
+	return found
 }
